@@ -95,3 +95,11 @@ impl SpeechGenerator {
         buf
     }
 }
+
+#[cfg(feature = "verif-hooks")]
+impl SpeechGenerator {
+    /// Read-only view of the (spectrum, log-F0, low-pass) trajectories this generator will render.
+    pub fn verif_parameters(&self) -> (&[Vec<f64>], &[Vec<f64>], &[Vec<f64>]) {
+        (&self.spectrum, &self.lf0, &self.lpf)
+    }
+}
